@@ -47,23 +47,37 @@ struct Script {
     millis: AtomicU64,
     started: AtomicUsize,
     finished: AtomicUsize,
+    /// lookups whose future was dropped before completing (worker cancelled or aborted)
+    cancelled: AtomicUsize,
     trace: Mutex<Vec<String>>,
     dropped: AtomicBool,
     started_after_drop: AtomicUsize,
+    per_dst: Mutex<std::collections::BTreeMap<u64, usize>>,
 }
 
 #[derive(Clone)]
 struct Fetch(Arc<Script>);
 
 impl PathFetcher for Fetch {
-    fn fetch_paths(&self, _src: IsdAsn, _dst: IsdAsn) -> impl Future<Output = Result<Vec<ScionPath>, PathFetchError>> + Send + '_ {
+    fn fetch_paths(&self, _src: IsdAsn, dst: IsdAsn) -> impl Future<Output = Result<Vec<ScionPath>, PathFetchError>> + Send + '_ {
         async move {
             let s = &self.0;
             s.started.fetch_add(1, Ordering::SeqCst);
+            *s.per_dst.lock().unwrap().entry(dst.to_u64()).or_default() += 1;
             if s.dropped.load(Ordering::SeqCst) {
                 s.started_after_drop.fetch_add(1, Ordering::SeqCst);
             }
             s.trace.lock().unwrap().push("lookup-start".into());
+            struct Guard<'a>(&'a Script, bool);
+            impl Drop for Guard<'_> {
+                fn drop(&mut self) {
+                    if !self.1 {
+                        self.0.cancelled.fetch_add(1, Ordering::SeqCst);
+                        self.0.trace.lock().unwrap().push("lookup-cancelled".into());
+                    }
+                }
+            }
+            let mut guard = Guard(s, false);
             for _ in 0..s.yields.load(Ordering::SeqCst) {
                 tokio::task::yield_now().await;
             }
@@ -74,6 +88,7 @@ impl PathFetcher for Fetch {
             let o = *s.outcome.lock().unwrap();
             s.trace.lock().unwrap().push(format!("lookup-end:{o:?}"));
             s.finished.fetch_add(1, Ordering::SeqCst);
+            guard.1 = true;
             match o {
                 Outcome::Paths => Ok(s.paths.clone()),
                 Outcome::Empty => Ok(vec![]),
@@ -114,9 +129,11 @@ async fn one_run(seed: u64, idx: u64, paths: Vec<ScionPath>, src: IsdAsn, dst: I
         millis: AtomicU64::new(*r.pick(&[0u64, 0, 1, 3, 10])),
         started: AtomicUsize::new(0),
         finished: AtomicUsize::new(0),
+        cancelled: AtomicUsize::new(0),
         trace: Mutex::new(vec![]),
         dropped: AtomicBool::new(false),
         started_after_drop: AtomicUsize::new(0),
+        per_dst: Mutex::new(Default::default()),
     });
     let scenario = r.below(4); // 0 plain, 1 stop during wait, 2 drop manager, 3 idle expiry
     let cfg = MultiPathManagerConfig::default()
@@ -153,9 +170,40 @@ async fn one_run(seed: u64, idx: u64, paths: Vec<ScionPath>, src: IsdAsn, dst: I
     let mut dropped_at = None;
     match scenario {
         1 => {
+            // in half of these runs the pair is cancelled while its (slow) first lookup is pending
+            if r.bool() {
+                script.millis.store(*r.pick(&[30u64, 60, 90]), Ordering::SeqCst);
+                for _ in 0..200 {
+                    if script.started.load(Ordering::SeqCst) > 0 {
+                        break;
+                    }
+                    tokio::time::sleep(Duration::from_millis(1)).await;
+                }
+            }
             jitter(&mut r).await;
             mgr.stop_managing_paths(src, dst);
             script.trace.lock().unwrap().push("stop".into());
+            // more manager traffic (other pairs come and go), then the same pair is asked for again
+            let reads = *r.pick(&[0u64, 8, 24, 300, 800]);
+            for k in 0..reads {
+                // a handful of other pairs, asked for again and again (index reads and inserts)
+                let other = IsdAsn::from_u64(dst.to_u64() ^ (0x100 + k % 6));
+                let _ = mgr.cached_path(src, other, now);
+                if r.bool() {
+                    tokio::task::yield_now().await;
+                }
+                if r.chance(1, 40) {
+                    mgr.stop_managing_paths(src, other);
+                }
+            }
+            tokio::time::sleep(Duration::from_millis(r.below(20))).await;
+            let mgr2 = mgr.clone();
+            let script2 = script.clone();
+            handles.push(tokio::spawn(async move {
+                let res = mgr2.path(src, dst, now).await;
+                script2.trace.lock().unwrap().push(format!("late-caller:{}", if res.is_ok() { "path" } else { "error" }));
+                (res.is_ok(), 0)
+            }));
         }
         3 => {
             // let the idle period pass while nobody asks, then ask again
@@ -180,7 +228,7 @@ async fn one_run(seed: u64, idx: u64, paths: Vec<ScionPath>, src: IsdAsn, dst: I
             }
             Ok(Err(e)) => violations.push(("panic:caller-task".into(), format!("caller {c}: {e}"))),
             Err(_) => {
-                let in_flight = script.started.load(Ordering::SeqCst) != script.finished.load(Ordering::SeqCst);
+                let in_flight = script.started.load(Ordering::SeqCst) != script.finished.load(Ordering::SeqCst) + script.cancelled.load(Ordering::SeqCst);
                 if in_flight {
                     inconclusive = Some("watchdog fired while a lookup was still running".to_string());
                 } else {
@@ -199,6 +247,36 @@ async fn one_run(seed: u64, idx: u64, paths: Vec<ScionPath>, src: IsdAsn, dst: I
         let want_ok = first_outcome == Outcome::Paths;
         if (want_ok && err > 0) || (!want_ok && ok > 0) {
             violations.push(("caller-outcome-differs-from-lookup".into(), format!("lookup ended {first_outcome:?}; {ok} callers got a path, {err} an error")));
+        }
+    }
+    if scenario == 0 && inconclusive.is_none() && violations.is_empty() {
+        // truly simultaneous first requests: tasks released by one barrier ask for fresh pairs
+        let n_par = 4;
+        for d in 0..12u64 {
+            let fresh = IsdAsn::from_u64(dst.to_u64() ^ (0x1_0000 + d));
+            let barrier = Arc::new(tokio::sync::Barrier::new(n_par));
+            let mut hs = vec![];
+            for _ in 0..n_par {
+                let (mgr, barrier) = (mgr.clone(), barrier.clone());
+                hs.push(tokio::spawn(async move {
+                    barrier.wait().await;
+                    let _ = mgr.cached_path(src, fresh, now);
+                }));
+            }
+            for h in hs {
+                let _ = h.await;
+            }
+        }
+        // let the workers' first lookups run
+        for _ in 0..50 {
+            if script.started.load(Ordering::SeqCst) == script.finished.load(Ordering::SeqCst) && script.per_dst.lock().unwrap().len() >= 13 {
+                break;
+            }
+            tokio::time::sleep(Duration::from_millis(2)).await;
+        }
+        let worst = script.per_dst.lock().unwrap().iter().filter(|(k, _)| **k != dst.to_u64()).map(|(_, v)| *v).max().unwrap_or(0);
+        if worst > 1 {
+            violations.push(("more-than-one-lookup-for-concurrent-first-requests".into(), format!("{n_par} simultaneous first requests for one fresh pair caused {worst} lookups")));
         }
     }
     if scenario == 3 && inconclusive.is_none() && violations.is_empty() {
@@ -265,9 +343,9 @@ pub fn run(args: &Args, mon: &mut Mon) -> (String, Vec<&'static str>) {
             return;
         }
         let multi = i % 2 == 1;
-        let rt = if multi { tokio::runtime::Builder::new_multi_thread().worker_threads(3).enable_all().build().unwrap() } else { tokio::runtime::Builder::new_current_thread().enable_all().build().unwrap() };
+        let rt = if multi { tokio::runtime::Builder::new_multi_thread().worker_threads(4).enable_all().build().unwrap() } else { tokio::runtime::Builder::new_current_thread().enable_all().build().unwrap() };
         m.eval();
-        let res = rt.block_on(one_run(seed, i, paths.clone(), pool.src, pool.dst, Duration::from_secs(20)));
+        let res = rt.block_on(one_run(seed, i, paths.clone(), pool.src, pool.dst, Duration::from_secs(10)));
         // the runtime must also be able to shut down (no task left spinning)
         rt.shutdown_timeout(Duration::from_secs(5));
         m.count("runs");
@@ -280,6 +358,9 @@ pub fn run(args: &Args, mon: &mut Mon) -> (String, Vec<&'static str>) {
             m.count("distinct_event_orders");
         }
         m.shape(&(res.trace.iter().map(|t| t.split(':').next().unwrap_or("").chars().take(6).collect::<String>()).collect::<Vec<_>>(), multi));
+        if i < 4 {
+            m.sample(|| json!({"runtime": if multi { "multi-thread(3)" } else { "current-thread" }, "event_order": res.trace}));
+        }
         if let Some(why) = res.inconclusive {
             m.count("runs_not_judged");
             if m.counter("runs_not_judged") > 20 {
@@ -292,9 +373,9 @@ pub fn run(args: &Args, mon: &mut Mon) -> (String, Vec<&'static str>) {
         }
     });
     (
-        format!("{n} runs of the real MultiPathManager with its real worker tasks (public API, scripted PathFetcher whose lookups take 0-7 scheduler yields and 0-10 ms and end with paths / empty / error), half on current-thread, half on 3-worker multi-thread tokio runtimes: 1-11 concurrent callers of path() (a quarter trying cached_path() first) with random yields/sleeps before and between calls, in four scenarios: plain, stop_managing_paths during the wait, drop of the last manager handle (workers refetching every 20 ms), idle removal (15 ms idle period) followed by a new request. The event order of every run is recorded; distinct = distinct event orders (lookup start/end, each caller's completion, stop, drop) seen."),
+        format!("{n} runs of the real MultiPathManager with its real worker tasks (public API, scripted PathFetcher whose lookups take 0-7 scheduler yields and 0-10 ms and end with paths / empty / error), half on current-thread, half on 4-worker multi-thread tokio runtimes: 1-11 concurrent callers of path() (a quarter trying cached_path() first) with random yields/sleeps before and between calls, in four scenarios: plain (followed by 12 rounds of 4 barrier-released simultaneous first requests for fresh pairs), stop_managing_paths during the wait followed by traffic for other pairs and a new request for the same pair, drop of the last manager handle (workers refetching every 20 ms), idle removal (15 ms idle period) followed by a new request. The event order of every run is recorded; distinct = distinct event orders (lookup start/end, each caller's completion, stop, drop) seen."),
         vec![
-            "a caller still pending 20 s after the last lookup finished on an otherwise idle runtime is reported as not released; if a lookup is still running at that point the run is not judged",
+            "a caller still pending 10 s after the last lookup finished on an otherwise idle runtime is reported as not released; if a lookup is still running at that point the run is not judged",
             "schedules are those the tokio runtimes produce under injected yields/sleeps; no exhaustive schedule enumeration (no loom/shuttle model of the crate's tasks)",
             "'exactly one worker' is observed as exactly one lookup for concurrent first requests of one pair",
         ],
